@@ -76,11 +76,10 @@ func runSolver(ctx context.Context, cfg solverCfg, text string) (status string, 
 	return "unknown", out, dur
 }
 
-// discharge decides one obligation: first the fast solver alone, then a race.
-func (vc *VC) discharge(o *Obl, timeoutS int, seed int) {
+// quickTry runs the fastest configuration alone with a short timeout.
+func (vc *VC) quickTry(o *Obl, timeoutS int, seed int) bool {
 	text := vc.queryText(o, false)
-	cfgs := solverConfigs(timeoutS, seed)
-	quick := 2
+	quick := 3
 	if timeoutS < quick {
 		quick = timeoutS
 	}
@@ -93,12 +92,19 @@ func (vc *VC) discharge(o *Obl, timeoutS int, seed int) {
 		if st == "sat" {
 			vc.fetchModel(o, qc, text)
 		}
-		return
+		return true
 	}
 	if o.ExpectSat && st != "error" {
-		return
+		return true
 	}
-	// race all three
+	return false
+}
+
+// race runs every configuration in parallel; the first definite answer wins.
+func (vc *VC) race(o *Obl, timeoutS int, seed int) {
+	text := vc.queryText(o, false)
+	cfgs := solverConfigs(timeoutS, seed)
+	d := o.TimeS
 	type res struct {
 		st, out, name string
 		d            float64
@@ -113,6 +119,7 @@ func (vc *VC) discharge(o *Obl, timeoutS int, seed int) {
 		}(c)
 	}
 	var errs []string
+	o.Status = ""
 	for range cfgs {
 		r := <-ch
 		if r.st == "unsat" || r.st == "sat" {
@@ -129,20 +136,15 @@ func (vc *VC) discharge(o *Obl, timeoutS int, seed int) {
 		}
 		if r.st == "error" {
 			errs = append(errs, r.name+": "+trimOut(r.out))
-		}
-		if o.Status != "unknown" || r.st == "unknown" {
-			if o.Status == "error" || o.Status == "" || r.st != "error" {
-				o.Status = r.st
-				o.Solver = r.name
-				o.Output = trimOut(r.out)
-			}
+		} else if o.Status == "" || o.Status == "unknown" {
+			o.Status, o.Solver, o.Output = r.st, r.name, trimOut(r.out)
 		}
 		o.TimeS = r.d + d
 	}
 	if len(errs) == len(cfgs) {
 		o.Status = "error"
 		o.Output = strings.Join(errs, "\n")
-	} else if o.Status == "error" {
+	} else if o.Status == "" {
 		o.Status = "unknown"
 	}
 }
@@ -170,6 +172,9 @@ func dischargeAll(vcs []*VC, timeoutS, seed, workers int) {
 		vc *VC
 		o  *Obl
 	}
+	// phase 1: one fast solver per obligation, all cores
+	var hard []job
+	var mu sync.Mutex
 	jobs := make(chan job)
 	var wg sync.WaitGroup
 	for i := 0; i < workers; i++ {
@@ -177,7 +182,11 @@ func dischargeAll(vcs []*VC, timeoutS, seed, workers int) {
 		go func() {
 			defer wg.Done()
 			for j := range jobs {
-				j.vc.discharge(j.o, timeoutS, seed)
+				if !j.vc.quickTry(j.o, timeoutS, seed) {
+					mu.Lock()
+					hard = append(hard, j)
+					mu.Unlock()
+				}
 			}
 		}()
 	}
@@ -187,6 +196,26 @@ func dischargeAll(vcs []*VC, timeoutS, seed, workers int) {
 		}
 	}
 	close(jobs)
+	wg.Wait()
+	// phase 2: the rest is raced across all configurations, few at a time
+	par := workers / len(solverConfigs(1, 0))
+	if par < 1 {
+		par = 1
+	}
+	jobs2 := make(chan job)
+	for i := 0; i < par; i++ {
+		wg.Add(1)
+		go func() {
+			defer wg.Done()
+			for j := range jobs2 {
+				j.vc.race(j.o, timeoutS, seed)
+			}
+		}()
+	}
+	for _, j := range hard {
+		jobs2 <- j
+	}
+	close(jobs2)
 	wg.Wait()
 }
 
